@@ -193,3 +193,80 @@ Proof.
   change (size_tree (T o (a :: r))) with (S (sum_nat (map size_tree (a :: r)))).
   destruct G as (G1 & G2 & G3). specialize (G3 ltac:(discriminate)). lia.
 Qed.
+
+(* ---------------- sorts: the reported set against a declarative definition ---------------- *)
+(* the sorts a node itself mentions *)
+Definition node_sorts (o : op) : list ty :=
+  match o with
+  | OSymbol _ ty => [ty]
+  | OFunction _ (TFun ps r) => r :: ps
+  | OArrayValue it => [it]
+  | OForall vs | OExists vs => map snd vs
+  | OBoolC _ => [TBool] | OIntC _ => [TInt] | ORealC _ _ => [TReal] | OStrC _ => [TStr]
+  | OBVC _ w => [TBV w]
+  | _ => []
+  end.
+(* a sort occurs in a term: at the node itself, or in an argument (symbols and constants are
+   leaves: their children, if any, are not looked at) *)
+Inductive sort_occurs (s : ty) : term -> Prop :=
+| SortHere o args : In s (node_sorts o) -> sort_occurs s (T o args)
+| SortArg o args a : In a args -> sort_occurs s a ->
+    match o with
+    | OSymbol _ _ | OBoolC _ | OIntC _ | ORealC _ _ | OBVC _ _ | OStrC _ => False
+    | _ => True
+    end -> sort_occurs s (T o args).
+
+Theorem types_walk_def : forall t s, In s (types_walk t) <-> sort_occurs s t.
+Proof.
+  induction t as [o args IH] using term_ind'. intros s.
+  assert (Hu : In s (unions ty_eqb (map types_walk args)) <-> exists a, In a args /\ sort_occurs s a).
+  { rewrite (unions_In ty_eqb ty_eqb_eq). rewrite Forall_forall in IH. split.
+    - intros (l & Hl & Hv). apply in_map_iff in Hl. destruct Hl as (a & <- & Ha). exists a. split; auto. now apply IH.
+    - intros (a & Ha & Hf). exists (types_walk a). split; [now apply in_map | now apply IH]. }
+  split.
+  - intros H.
+    assert (Hrec : In s (unions ty_eqb (map types_walk args)) ->
+                   match o with OSymbol _ _ | OBoolC _ | OIntC _ | ORealC _ _ | OBVC _ _ | OStrC _ => False | _ => True end ->
+                   sort_occurs s (T o args)).
+    { intros Hin Ho. apply Hu in Hin. destruct Hin as (a & Ha & Hs). eapply SortArg; eauto. }
+    destruct o; cbn [types_walk] in H; try (apply Hrec; [exact H | exact Logic.I]).
+    + (* forall *) destruct (proj1 (union_In ty_eqb ty_eqb_eq _ _ _) H) as [H1|H1].
+      * apply SortHere. exact (proj1 (dedupe_In ty_eqb ty_eqb_eq _ _) H1).
+      * apply Hrec; [exact H1 | exact Logic.I].
+    + (* exists *) destruct (proj1 (union_In ty_eqb ty_eqb_eq _ _ _) H) as [H1|H1].
+      * apply SortHere. exact (proj1 (dedupe_In ty_eqb ty_eqb_eq _ _) H1).
+      * apply Hrec; [exact H1 | exact Logic.I].
+    + (* symbol *) apply SortHere. exact H.
+    + (* function *) destruct t; try (apply Hrec; [exact H | exact Logic.I]).
+      destruct (proj1 (union_In ty_eqb ty_eqb_eq _ _ _) H) as [H1|H1].
+      * apply SortHere. exact (proj1 (dedupe_In ty_eqb ty_eqb_eq _ _) H1).
+      * apply Hrec; [exact H1 | exact Logic.I].
+    + apply SortHere. exact H.
+    + apply SortHere. exact H.
+    + apply SortHere. exact H.
+    + apply SortHere. exact H.
+    + apply SortHere. exact H.
+    + (* array value *) destruct (proj1 (union_In ty_eqb ty_eqb_eq _ _ _) H) as [H1|H1].
+      * apply SortHere. exact H1.
+      * apply Hrec; [exact H1 | exact Logic.I].
+  - intros H. inversion H as [o' args' Hn|o' args' a Ha Hs Ho]; subst.
+    + destruct o; cbn [node_sorts] in Hn; cbn [types_walk]; try contradiction; auto.
+      * apply (union_In ty_eqb ty_eqb_eq). left. exact (proj2 (dedupe_In ty_eqb ty_eqb_eq _ _) Hn).
+      * apply (union_In ty_eqb ty_eqb_eq). left. exact (proj2 (dedupe_In ty_eqb ty_eqb_eq _ _) Hn).
+      * destruct t; try contradiction. apply (union_In ty_eqb ty_eqb_eq). left. exact (proj2 (dedupe_In ty_eqb ty_eqb_eq _ _) Hn).
+      * apply (union_In ty_eqb ty_eqb_eq). left. exact Hn.
+    + assert (Hin : In s (unions ty_eqb (map types_walk args))) by (apply Hu; eauto).
+      destruct o; cbn [types_walk]; try contradiction; auto.
+      * apply (union_In ty_eqb ty_eqb_eq). auto.
+      * apply (union_In ty_eqb ty_eqb_eq). auto.
+      * destruct t; auto. apply (union_In ty_eqb ty_eqb_eq). auto.
+      * apply (union_In ty_eqb ty_eqb_eq). auto.
+Qed.
+
+(* get_types = the closure of those sorts under component sorts *)
+Theorem get_types_def : forall t s, In s (get_types t) <-> exists u, sort_occurs u t /\ In s (subtypes u).
+Proof.
+  intros t s. unfold get_types. rewrite (dedupe_In ty_eqb ty_eqb_eq), in_flat_map. split.
+  - intros (u & Hu & Hs). exists u. split; auto. now apply types_walk_def.
+  - intros (u & Hu & Hs). exists u. split; auto. now apply types_walk_def.
+Qed.
